@@ -29,6 +29,13 @@ ASSUMPTIONS = [
     'tables / options / errors, Connection.attach assigns none and hands the connection itself to attach of '
     'import_module("beanquery.sources." + urlparse(dsn).scheme); urlparse / import_module return opaque objects whose attributes '
     'are uninterpreted; what the data source module does to the three containers is outside the fragment',
+    'group attach2 (bld-inv2; C09_source_attach_registers_*, harness/vf/src_attach2.py rules B1-B3, Model/PrimsAttach2.v): the whole of '
+    'beanquery.sources.beancount.attach is translated with the connection as the receiver; trusted: item store / dict.update / '
+    'list.extend on a container of the connection behave as raw_set (existing key replaced in place, new key appended) / raw_update / '
+    'concatenation and the container is reachable only through the connection attribute (value semantics); a table class of the live '
+    'module-level TABLES is an opaque callable whose `name` is what attach2_tables records from the live class; urlparse(dsn).path is an '
+    'uninterpreted value, loader.load_file an opaque callable; the theorems assume options is a dict, errors a list and that no table '
+    'constructor raises (attach(options=None) without a file raises TypeError in Python: the primitive is Stuck there, not compared)',
     'source-data fingerprint (table_fingerprint): value-based and identity-free (two connections on one file give equal fingerprints); '
     'the per-scan working state of a query_env.Row context (rowid, running balance, memo) is not source data and is left out',
 ]
@@ -1693,6 +1700,9 @@ def generate():
     from . import gen_src
     out = gen_src.generate('params')
     out.update(gen_src.generate('attach'))      # bld-shell3: Connection.__init__ (whole) and Connection.attach
+    out.update(gen_src.generate('attach2'))     # bld-inv2: sources.beancount.attach (tables / options / errors)
+    from . import src_attach2
+    out.update(src_attach2.report())
     return out
 
 
